@@ -24,10 +24,10 @@ LEVEL = "exploration"
 RULE = (
     "hdf: member subsets(7) x bins{1,2,3} x patches{2,3} x auto/cross x closed x contents{dense fingerprint, "
     "sparse, all-zero, zero-rr, negative/fractional, cancelling, whole numbers with entries >= 2^31 / 2^53 or +-inf, auto containers with two different weight arrays, auto containers with counts below the diagonal}; yaml: method x closed x unit(8) x scales{single, list of 1, "
-    "list of 3} x rweight/resolution x cosmology names(3) x (zmin,zmax,num_bins) incl. non-representable decimals, "
+    "list of 3, 2 nested} x rweight/resolution x cosmology names(3) x (zmin,zmax,num_bins) incl. non-representable decimals, "
     "custom edges, max_workers; text: classes{CorrData,RedshiftData,HistData} x bins{1,2,3} x samples{2,3} x "
     "value alphabet {0,+-1e-12,+-0.123456789,+-12345.678,+-1e9,nan,+-inf} placed in every position; metadata: "
-    "special floats; cache: reopen; prefix: every ordered pair of two products written side by side under the path prefixes {prod, nz_0.1, nz_0.2, run.v2.final, nz_0, a.b}, each must read back as itself. Non-trivial: anything but the plain dense/linear/default case. Oracle: "
+    "special floats and right ascensions outside [0,2pi); cache: reopen; prefix: every ordered pair of two products written side by side under the path prefixes {prod, nz_0.1, nz_0.2, run.v2.final, nz_0, a.b}, each must read back as itself. Non-trivial: anything but the plain dense/linear/default case. Oracle: "
     "own snapshot comparison plus the library's ==, identical sample(), bit-identical edges."
 )
 ASSUMPTIONS = [
@@ -53,8 +53,10 @@ def cases(tier, seed):
         out.append(dict(part="hdf", members=list(members), B=B, N=N, auto=auto, closed=closed,
                         content=content))
     for method, closed, unit, sc, rw, cosmo, zs in itertools.product(
-            c15.METHODS, ("right", "left"), c15.UNIT_SCALES, ("single", "list1", "list3"),
+            c15.METHODS, ("right", "left"), c15.UNIT_SCALES, ("single", "list1", "list3", "nested"),
             c15.RW, ("Planck15", "WMAP9", "Planck13"), ZSPECS):
+        if sc == "nested" and tier != "thorough" and (method != "linear" or cosmo != "Planck15" or rw != c15.RW[0]):
+            continue
         if tier != "thorough":
             # quick: pairwise-complete slice (every value of every parameter with every method)
             if (unit not in ("kpc", "deg", "Mpc/h")) and (sc != "single" or rw != c15.RW[0] or cosmo != "Planck15"):
@@ -66,6 +68,8 @@ def cases(tier, seed):
             rmin, rmax = lo, hi
         elif sc == "list1":
             rmin, rmax = [lo], [hi]
+        elif sc == "nested":
+            rmin, rmax = c15.scales_for(unit, "nested")
         else:
             rmin, rmax = c15.scales_for(unit, True)
         out.append(dict(part="yaml", params=dict(
@@ -95,6 +99,8 @@ def cases(tier, seed):
             continue
         out.append(dict(part="meta", num_records=7, sum_weights=a, ra=min(b, 6.0) if b < 7 else 1.0,
                         dec=min(c_, 1.5) if c_ < 2 else 0.5, radius=b if b < 3.2 else 0.25))
+    for ra in (-0.5, -3.0, 7.0, 2 * math.pi):
+        out.append(dict(part="meta", num_records=7, sum_weights=3.5, ra=ra, dec=0.25, radius=0.125))
     for w, z in itertools.product((False, True), repeat=2):
         out.append(dict(part="cache", weighted=w, with_z=z))
     return out
